@@ -1,5 +1,5 @@
 (* Props/C17.v — property theorems only.  Containers behave like their map/set models. *)
-From TSG Require Import Model.ContainerOps Proofs.BaseFacts Proofs.Containers.
+From TSG Require Import Model.ContainerOps Model.Vars Proofs.BaseFacts Proofs.Containers.
 From Coq Require Import Sorted.
 
 (* Attributes::add refines the documented contract on abstract maps (ident -> option value):
@@ -43,6 +43,20 @@ Theorem nested_does_not_write_outer : forall s o, var_op o = true -> tl (cs_vars
 Proof. exact nested_no_write_lemma. Qed.
 Theorem nested_sees_outer : forall g k, globals_get (globals_nested g) k = globals_get g k.
 Proof. exact nested_sees_outer_lemma. Qed.
+
+(* the crate-internal nested VariableMap used by the checker and both interpreters (Model/Vars.v): the innermost
+   binding of a name decides — an immutable inner binding is never written through to an outer mutable one,
+   a mutable inner one is updated in place, and adding a name never touches the enclosing frames *)
+Theorem varmap_set_immutable_inner_blocks : forall (f : vframe value) up k x v,
+  alist_get k f = Some (x, false) -> varmap_set (f :: up) k v = inr VarImmutable.
+Proof. intros f up k x v H. cbn [varmap_set]. rewrite H. reflexivity. Qed.
+Theorem varmap_set_mutable_inner_in_place : forall (f : vframe value) up k x v,
+  alist_get k f = Some (x, true) -> varmap_set (f :: up) k v = inl (alist_set k (v, true) f :: up).
+Proof. intros f up k x v H. cbn [varmap_set]. rewrite H. reflexivity. Qed.
+Theorem varmap_add_inner_only : forall (f : vframe value) up k v m r, varmap_add (f :: up) k v m = inl r -> tl r = up.
+Proof. intros f up k v m r. cbn [varmap_add]. destruct (alist_get k f); [discriminate|]. intros [= <-]. reflexivity. Qed.
+Theorem varmap_get_innermost_wins : forall (f : vframe value) up k x b, alist_get k f = Some (x, b) -> varmap_get (f :: up) k = Some x.
+Proof. intros f up k x b H. cbn [varmap_get]. rewrite H. reflexivity. Qed.
 
 (* non-vacuity: a concrete non-trivial history meets the hypotheses and exercises conflict + re-add *)
 Example c17_nonvacuous :
